@@ -293,7 +293,7 @@ def run(ctx):
 
     # ---------------------------------------------------------------- replay
     # stratified: every kind; every bound kind, floating set, constraint kind at least once
-    budget = 13 if quick else 60
+    budget = 12 if quick else 60
     chosen = choose(scenarios, rng, budget, quick)
     npoints = 1 if quick else 2
     stats = {"scenarios": 0, "points": 0, "fd_checks": 0, "ill_conditioned": 0, "identities": 0, "max_fd_rel": 0.0}
@@ -435,7 +435,11 @@ def check_scenario(ctx, fac, sc, rng, npoints, v, stats, quick, with_eff):
         value_ok = ident_ok(v1, v0, nscale)
         if not value_ok:
             if kind == "cfit_cached" and s.with_eff:
+                # the C06 defect (efficiency missing in the cached integral): nll_grad evaluates another function than
+                # fcn() and nll_grad_hessian; every further comparison at this point would restate it
                 ctx.violation("cfit_cached:nll_grad:value_differs_from_nll:eff_value", {"nll": v0, "value_with_gradient": float(v1), "scenario": sc})
+                stats["skipped_after_known_value_defect"] = stats.get("skipped_after_known_value_defect", 0) + 1
+                continue
             else:
                 report("nll_grad", "value returned with the gradient differs from the stand-alone NLL", "value", {"nll": v0, "with_gradient": float(v1)})
         V = val if value_ok else val_g  # the NLL the gradient claims to differentiate
